@@ -26,6 +26,7 @@ func main() {
 	files["GenFuncs.v"] = genFuncs()
 	files["GenTables.v"] = genTables()
 	files["GenStruct.v"] = genStruct()
+	files["GenTyped.v"] = genTyped()
 	for name, content := range files {
 		p := filepath.Join(*out, name)
 		old, err := os.ReadFile(p)
